@@ -74,6 +74,17 @@ Decl(t, o) ==
       [] o.op = "lines" -> Lines(t)
       [] o.op = "slice" -> IF DeclLine(t, o.line) = <<>> THEN <<>>
                            ELSE SliceChars(DeclSlice(DeclLine(t, o.line)[1], o.c, o.n))
+\* ---- large texts given as a repeated pattern ----
+\* text = (unit ++ sep) repeated n times, unit without terminators, sep one terminator (LF, CR or CR LF).
+\* LEMMA (checked by TLC for small n in MC_SourceView): it has n+1 lines, the first n equal to unit, the last empty.
+RepText(unit, sep, n) == FoldLeft(LAMBDA acc, k : acc \o unit \o sep, <<>>, [k \in 1..n |-> k])
+RepLine(unit, n, i) == IF i < n THEN <<unit>> ELSE IF i = n THEN << <<>> >> ELSE <<>>
+RepCount(n) == n + 1
+RepDecl(unit, n, o) ==
+    CASE o.op = "get_line" -> RepLine(unit, n, o.i)
+      [] o.op = "line_count" -> RepCount(n)
+      [] o.op = "slice" -> IF RepLine(unit, n, o.line) = <<>> THEN <<>>
+                           ELSE SliceChars(DeclSlice(RepLine(unit, n, o.line)[1], o.c, o.n))
 \* consistency of the index with the text
 IndexConsistent(s, t) ==
     /\ IsPrefix(s.cache, Lines(t))
